@@ -164,6 +164,33 @@ def run(ctx, R):
         outer = uni in built and (uni == "DefaultUnifier" and built == {"DefaultUnifier"} or uni != "DefaultUnifier" and built == {uni, "DefaultUnifier"})
         R.ob("C10:mode-wiring:MachineState::%s" % meth, outer, "%s builds %s (table: %s)" % (meth, sorted(built), uni), F.where(p))
 
+    # ---- RF4: head-unification instructions honour the occurs_check flag ----------------------------------------
+    # unify_fn! dispatches through machine_st.occurs_check (Nsto/Sto/StoError); unify! is the plain unifier and
+    # may only be used where one side is a constant (no cycle can arise).
+    from .core import mac_names
+    PLAIN_OK = {"get_constant_instr": "one side is a constant", "unify_constant_instr": "one side is a constant"}
+    NEED_FLAG = {"get_value_instr", "unify_value_instr", "unify_local_value_instr"}
+    plain, flagged = {}, {}
+    for p, it in F.items.items():
+        if it["kind"] != "AssocFn" or it["file"] != "src/machine/dispatch.rs" or not p.endswith("_instr"):
+            continue
+        hh = F.hir(p)
+        for n in walk(hh["body"]):
+            ms = mac_names(n)
+            if "unify" in ms:
+                plain[p] = plain.get(p, 0) + 1
+            if "unify_fn" in ms:
+                flagged[p] = flagged.get(p, 0) + 1
+    R.floor("instruction handlers that unify", len(plain) + len(flagged), 5)
+    for p in sorted(plain):
+        nm = p.rsplit("::", 1)[-1]
+        R.ob("C10:flag-respecting-unify:%s:plain" % nm, nm in PLAIN_OK,
+             "%s unifies with the plain unifier (unify!), which ignores the occurs_check flag: %s" % (nm, PLAIN_OK.get(nm, "two arbitrary terms may be unified here, so with occurs_check=true/error a cyclic term is built silently")), F.where(p))
+    for nm in sorted(NEED_FLAG):
+        ps = [p for p in flagged if p.endswith("::" + nm)]
+        R.ob("C10:flag-respecting-unify:%s" % nm, len(ps) == 1 and not any(p.endswith("::" + nm) for p in plain),
+             "%s must unify through unify_fn! (machine_st.occurs_check.unify)" % nm, F.where(ps[0]) if ps else "src/machine/dispatch.rs")
+
     # ---- RF10: variable arms in the per-shape helpers --------------------------------------------------------
     for helper in ("unify_structure", "unify_list", "unify_atom", "unify_char", "unify_fixnum", "unify_big_integer", "unify_big_rational", "unify_f64", "unify_constant"):
         cands = [p for p in defaults if p.endswith("::" + helper)]
